@@ -500,3 +500,9 @@ Theorem C19_add_reads_only_size_example :
   snd (cp_add cp_init [1; 2; 3; 4; 5; 6; 7; 8; 99; 98] 8) = Ok 0.
 Proof. exact add_reads_example. Qed.
 Print Assumptions C19_add_reads_only_size_example.
+
+(* history form of C19_add_reads_only_size: two histories whose calls have the same sizes and buffers agreeing on their first
+   `size` bytes produce the same pool and the same answers, from any starting pool (hence the same image, size, alignment) *)
+Theorem C19_history_reads_only_sizes : forall cmds1 cmds2 p, Forall2 same_reads cmds1 cmds2 -> run p cmds1 = run p cmds2.
+Proof. exact run_reads_only_sizes_thm. Qed.
+Print Assumptions C19_history_reads_only_sizes.
